@@ -7,7 +7,7 @@ From Pyro Require Export Model.Base Corr.Verdict.
 Open Scope string_scope.
 Open Scope Z_scope.
 
-Record ingest := { ig_w : nat; ig_j : nat; ig_slot : nat; ig_start : Z; ig_end : Z }.
+Record ingest := { ig_w : nat; ig_j : nat; ig_slot : nat; ig_span : N (* 10 s slots covered; every stack's count per slot is 1 *); ig_start : Z; ig_end : Z }.
 
 Record read := {
   rd_start : Z; rd_end : Z;
@@ -32,9 +32,16 @@ Record case := {
 Definition has_ingest (r : read) (g : ingest) : bool :=
   existsb (fun u => Nat.eqb (fst (fst u)) (ig_w g) && Nat.eqb (snd (fst u)) (ig_j g)) (rd_uniq r).
 
-(* the render contains whole ingests only: every unique stack exactly once and the three common stacks once per ingest *)
-Definition whole (r : read) : bool :=
-  forallb (fun u => N.eqb (snd u) 1) (rd_uniq r) && N.eqb (rd_common r) (3 * N.of_nat (length (rd_uniq r)))%N.
+(* the render contains whole ingests only: every unique stack with the full count of its upload (its span: one per
+   slot; all slots of every upload lie inside the rendered range) and the three common stacks as often *)
+Definition span_of (gs : list ingest) (u : nat * nat * N) : N :=
+  match find (fun g => Nat.eqb (ig_w g) (fst (fst u)) && Nat.eqb (ig_j g) (snd (fst u))) gs with
+  | Some g => ig_span g
+  | None => 1%N
+  end.
+Definition whole_in (gs : list ingest) (r : read) : bool :=
+  forallb (fun u => N.eqb (snd u) (span_of gs u)) (rd_uniq r) &&
+  N.eqb (rd_common r) (3 * fold_right (fun u n => snd u + n) 0 (rd_uniq r))%N.
 
 (* every ingest acknowledged before the render began is in it; nothing that began after the render ended is *)
 Definition window_ok (gs : list ingest) (r : read) : bool :=
@@ -60,7 +67,8 @@ Definition pre_count (c : case) : N := if k_cold c then 0%N else 4%N.
 Definition concurrent_stream (c : case) : bool :=
   String.eqb (k_stream c) "main" || String.eqb (k_stream c) "delete" ||
   String.eqb (k_stream c) "gate-miss-dimensions" || String.eqb (k_stream c) "gate-miss-segments" ||
-  String.eqb (k_stream c) "gate-restart-dimensions".
+  String.eqb (k_stream c) "gate-restart-dimensions" || String.eqb (k_stream c) "gate-writeback-in-put" ||
+  String.eqb (k_stream c) "straddle".
 
 Definition check_read (c : case) (r : read) : verdict :=
   if rd_nil r then
@@ -68,11 +76,11 @@ Definition check_read (c : case) (r : read) : verdict :=
     spec (forallb (fun g => negb (ig_end g <? rd_start r)) (k_ingests c) && negb (negb (k_cold c)))
          "a render returned nothing although an ingest had been acknowledged before it began"
   else combine_verdicts [
-    spec (whole r) "torn read: a unique stack without (or with a different number of) common-stack increments";
+    spec (whole_in (k_ingests c) r) "torn read: a unique stack without (or with a different number of) common-stack increments";
     spec (window_ok (k_ingests c) r)
          "a render misses an ingest acknowledged before it began, or shows one that began after it ended";
     spec (prefix_closed (k_ingests c) r) "a render shows an ingest but not one that was acknowledged before that ingest began";
-    spec (N.eqb (rd_other r) (pre_count c) || String.eqb (k_stream c) "delete")
+    spec (N.eqb (rd_other r) (pre_count c) || String.eqb (k_stream c) "delete" || String.eqb (k_stream c) "straddle")
          "a render shows samples nobody ingested, or misses the profile ingested before the run"
   ].
 
@@ -83,14 +91,14 @@ Definition check_case (c : case) : verdict :=
   else if String.eqb (k_stream c) "evict" then
     (* eviction running on top of write-back: inherits the known finding writeback-drop; only races, panics and
        hangs (process level) and invented data are failures here *)
-    if negb (whole (k_final c)) || negb (Nat.eqb (length (rd_uniq (k_final c))) n) || rd_nil (k_final c)
-    then (if forallb (fun u => N.leb (snd u) 1) (rd_uniq (k_final c)) && N.leb (rd_common (k_final c)) (3 * N.of_nat n)
+    if negb (whole_in (k_ingests c) (k_final c)) || negb (Nat.eqb (length (rd_uniq (k_final c))) n) || rd_nil (k_final c)
+    then (if forallb (fun u => N.leb (snd u) (span_of (k_ingests c) u)) (rd_uniq (k_final c)) && N.leb (rd_common (k_final c)) (3 * N.of_nat n)
           then Known "writeback-drop" else SpecFails "eviction stream: more samples than were ingested")
     else Ok
   else combine_verdicts (
     map (check_read c) (k_reads c) ++ [
     spec (negb (k_put_error c)) "an ingest returned an error";
-    spec (negb (rd_nil (k_final c)) && whole (k_final c) && Nat.eqb (length (rd_uniq (k_final c))) n &&
+    spec (negb (rd_nil (k_final c)) && whole_in (k_ingests c) (k_final c) && Nat.eqb (length (rd_uniq (k_final c))) n &&
           forallb (fun g => has_ingest (k_final c) g) (k_ingests c))
          "after all ingests returned, the shared series is not the sum of everything acknowledged";
     spec (forallb (fun t => N.eqb t (N.of_nat (k_per_writer c))) (k_own_totals c))
@@ -99,7 +107,7 @@ Definition check_case (c : case) : verdict :=
     (* repaired by /repo fba57a2 (Segment.GetWithTimeline): timeline and tree used to be read in two lock sections *)
     spec (forallb (fun r => rd_nil r || (timeline_well_formed (rd_timeline r) &&
                     N.eqb (timeline_ingests (rd_timeline r)) (N.of_nat (length (rd_uniq r)) + (if k_cold c then 0 else 1))))
-                  (k_final c :: k_reads c) || String.eqb (k_stream c) "delete")
+                  (k_final c :: k_reads c) || String.eqb (k_stream c) "delete" || String.eqb (k_stream c) "straddle")
          "torn mixture: the timeline of a render shows a different number of ingests than its tree"
   ]).
 
